@@ -3,12 +3,16 @@ from props.engine_common import *  # noqa: F403
 
 LEVEL = "proof"
 LEVEL_TEXT = ("proved for every registry meeting DecoderOK: when a hit reported at [a,b) is attached, the ghost absolute start of its parent context "
-              "(the sum of the starts of the enclosing undecoded contexts, invariant J3) plus its start is a, and its length is b-a "
-              "(transition clauses E2-abs-start / E2-length over the core invariant J0-J4)")
-LEVEL_NOTE = ("the case-insensitive equality of the original slice with text[a:b] is covered by the bounded stand-in only (the lower/slice lemma J6 of "
-              "DESIGN.md 5.2 is not yet discharged); assumes DecoderOK and sorted()")
+              "(the sum of the starts of the enclosing undecoded contexts, invariant J3) plus its start is a, its length is b-a, and the case-folded "
+              "original slice equals the case-folded text[a:b] of the scanned text (transition clauses E2-abs-start / E2-length / "
+              "E2-original-is-the-text-covered over the core invariant J0-J4 and the case-folding view J6)")
+LEVEL_NOTE = ("J6 uses three axioms about bytes as ground instances (lower commutes with slicing, slice of a slice, full slice) - they are listed as trusted "
+              "lemmas in the evidence; assumes DecoderOK and sorted()")
+import os  # noqa: E402
+
+os.environ.setdefault("VERIF_TIMEOUT", "45")  # the case-folding clauses need several instantiation rounds (5-15 s each)
 DESIGN_REF = "DESIGN.md 5.1 E2"
 FUNCTIONS = ENGINE_FUNCS
-EXCLUDE_CLAUSES = CORE_ONLY
+EXCLUDE_CLAUSES = ("J5", "E3", "E4", "DABS")
 TRUSTED = ENGINE_TRUSTED
 BOUNDED = [engine_bounded(("C04",))]
